@@ -31,6 +31,7 @@ import (
 	"github.com/aws/aws-sdk-go-v2/credentials"
 	"github.com/aws/aws-sdk-go-v2/service/s3"
 	"github.com/tailscale/setec/server"
+	"github.com/tailscale/setec/types/api"
 	"github.com/tink-crypto/tink-go/v2/tink"
 )
 
@@ -47,12 +48,39 @@ type c17Upl struct {
 
 type c17Input struct {
 	Kind   string   `json:"kind"`
-	Writes []uint64 `json:"writes"` // instants (ms) of successful database writes, increasing
-	Fails  []uint64 `json:"fails,omitempty"` // instants of write attempts whose save fails (state directory unreachable)
+	Writes []uint64 `json:"writes,omitempty"` // legacy: instants (ms) of puts of fresh values on "k"
+	Fails  []uint64 `json:"fails,omitempty"`  // legacy: instants of such puts whose save fails (state directory unreachable)
+	Ops    []c17Op  `json:"ops,omitempty"`    // the clients' mutating calls; whether one is a write is the MODEL's verdict
 	Reads  []uint64 `json:"reads,omitempty"` // instants of client reads (list, get, info)
 	Script []c17Upl `json:"script"`
 	Cancel uint64   `json:"cancel"` // instant (ms) the context is cancelled
 }
+
+// c17Op is one mutating client call at a virtual instant.
+type c17Op struct {
+	T    uint64 `json:"t"`
+	Kind string `json:"kind"` // put activate delver del
+	Name string `json:"name"`
+	Ver  uint32 `json:"ver,omitempty"`
+	Val  int    `json:"val,omitempty"` // value token
+	Fail bool   `json:"fail,omitempty"` // the state directory is unreachable during the call: a save fails
+}
+
+// allOps: legacy fields and Ops as one list in time order.
+func (in c17Input) allOps() []c17Op {
+	var out []c17Op
+	for i, w := range in.Writes {
+		out = append(out, c17Op{T: w, Kind: "put", Name: "k", Val: 1000 + i})
+	}
+	for i, w := range in.Fails {
+		out = append(out, c17Op{T: w, Kind: "put", Name: "k", Val: 2000 + i, Fail: true})
+	}
+	out = append(out, in.Ops...)
+	sort.SliceStable(out, func(i, j int) bool { return out[i].T < out[j].T })
+	return out
+}
+
+func c17Val(v int) []byte { return []byte(fmt.Sprintf("value-%d", v)) }
 
 type c17Upload struct {
 	T      uint64 `json:"t"`
@@ -69,6 +97,7 @@ type c17Obs struct {
 	Exited   bool        `json:"exited"`
 	Exit     uint64      `json:"exit"`
 	FinalGen uint64      `json:"final_gen"`
+	FinalBid uint64      `json:"final_bid"` // identifier of the live file's bytes at the end (0 = never uploaded)
 	Racing   uint64      `json:"racing"`
 	Note     string      `json:"note,omitempty"`
 }
@@ -100,31 +129,44 @@ func (s *c17Store) recordVersion() {
 	}
 }
 
-// dbWrite makes one database write (a put of a fresh value) and records the file version.
+// dbWrite makes one database write from the store's side (a put of a fresh value on a secret
+// of its own, which no client call touches) and records the file version.
 func (s *c17Store) dbWrite() {
 	*s.wseq++
-	_, err := s.env.d.Put(s.env.super, "k", []byte(fmt.Sprintf("value-%d", *s.wseq)))
+	_, err := s.env.d.Put(s.env.super, "r", c17Val(1000000+*s.wseq))
 	if err != nil {
 		s.note += "write failed: " + err.Error() + "; "
 	}
 	s.recordVersion()
 }
 
-// dbFailedWrite: a write attempt whose save fails (the state directory is unreachable while
-// it runs, as in the C03/C04 histories); nothing may change.
-func (s *c17Store) dbFailedWrite() {
+// dbOp performs one client call; with Fail the state directory is unreachable while it runs
+// (as in the C03/C04 histories) and restored at once.
+func (s *c17Store) dbOp(op c17Op) {
 	hidden := s.env.state + ".hidden"
-	if err := os.Rename(s.env.state, hidden); err != nil {
-		s.note += "hide state dir: " + err.Error() + "; "
-		return
+	if op.Fail {
+		if err := os.Rename(s.env.state, hidden); err != nil {
+			s.note += "hide state dir: " + err.Error() + "; "
+			return
+		}
 	}
-	*s.wseq++
-	_, err := s.env.d.Put(s.env.super, "k", []byte(fmt.Sprintf("value-%d", *s.wseq)))
-	if err == nil {
-		s.note += "a write with an unreachable state directory succeeded; "
+	d, c := s.env.d, s.env.super
+	switch op.Kind {
+	case "put":
+		d.Put(c, op.Name, c17Val(op.Val))
+	case "activate":
+		d.Activate(c, op.Name, api.SecretVersion(op.Ver))
+	case "delver":
+		d.DeleteVersion(c, op.Name, api.SecretVersion(op.Ver))
+	case "del":
+		d.Delete(c, op.Name)
+	default:
+		s.note += "unknown op " + op.Kind + "; "
 	}
-	if err := os.Rename(hidden, s.env.state); err != nil {
-		s.note += "restore state dir: " + err.Error() + "; "
+	if op.Fail {
+		if err := os.Rename(hidden, s.env.state); err != nil {
+			s.note += "restore state dir: " + err.Error() + "; "
+		}
 	}
 	s.recordVersion()
 }
@@ -250,17 +292,15 @@ func runC17Scenario(t *testing.T, work string, idx int, in c17Input) c17Obs {
 			defer close(wdone)
 			type ev struct {
 				t    uint64
-				kind int
+				op   *c17Op
 			}
 			var evs []ev
-			for _, w := range in.Writes {
-				evs = append(evs, ev{w, 0})
-			}
-			for _, w := range in.Fails {
-				evs = append(evs, ev{w, 1})
+			ops := in.allOps()
+			for i := range ops {
+				evs = append(evs, ev{ops[i].T, &ops[i]})
 			}
 			for _, w := range in.Reads {
-				evs = append(evs, ev{w, 2})
+				evs = append(evs, ev{w, nil})
 			}
 			sort.SliceStable(evs, func(i, j int) bool { return evs[i].t < evs[j].t })
 			for _, e := range evs {
@@ -269,12 +309,9 @@ func runC17Scenario(t *testing.T, work string, idx int, in c17Input) c17Obs {
 					time.Sleep(d)
 				}
 				st.mu.Lock()
-				switch e.kind {
-				case 0:
-					st.dbWrite()
-				case 1:
-					st.dbFailedWrite()
-				default:
+				if e.op != nil {
+					st.dbOp(*e.op)
+				} else {
 					st.dbReads()
 				}
 				st.mu.Unlock()
@@ -294,6 +331,9 @@ func runC17Scenario(t *testing.T, work string, idx int, in c17Input) c17Obs {
 		obs.Note += st.note
 		st.mu.Unlock()
 		obs.FinalGen = env.d.WriteGen()
+		if bs, err := os.ReadFile(env.path); err == nil {
+			obs.FinalBid = st.bodies[sha256.Sum256(bs)]
+		}
 		if stuck {
 			obs.Note += "the task had not returned 20 virtual minutes after cancellation; "
 		}
@@ -320,8 +360,23 @@ func coqC17(in c17Input, obs c17Obs) string {
 		}
 		ups[i] = fmt.Sprintf("(%d,%d,%s)", u.T, g, coqBool(u.OK))
 	}
-	return fmt.Sprintf("Sc %s %s %s %s %d %s %s %s %d %d", coqNList(in.Writes), coqNList(in.Fails), coqNList(in.Reads), coqList(sc), in.Cancel,
-		coqList(ups), coqNList(bids), coqOpt(coqN(obs.Exit), obs.Exited), obs.FinalGen, obs.Racing)
+	ops := in.allOps()
+	evs := make([]string, len(ops))
+	for i, op := range ops {
+		n := coqBytes([]byte(op.Name))
+		switch op.Kind {
+		case "put":
+			evs[i] = fmt.Sprintf("EPut %d %s %s %d", op.T, coqBool(!op.Fail), n, op.Val)
+		case "activate":
+			evs[i] = fmt.Sprintf("EAct %d %s %s %d", op.T, coqBool(!op.Fail), n, op.Ver)
+		case "delver":
+			evs[i] = fmt.Sprintf("EDelV %d %s %s %d", op.T, coqBool(!op.Fail), n, op.Ver)
+		default:
+			evs[i] = fmt.Sprintf("EDel %d %s %s", op.T, coqBool(!op.Fail), n)
+		}
+	}
+	return fmt.Sprintf("Sc %s %s %s %d %s %s %s %d %d %d", coqList(evs), coqNList(in.Reads), coqList(sc), in.Cancel,
+		coqList(ups), coqNList(bids), coqOpt(coqN(obs.Exit), obs.Exited), obs.FinalGen, obs.Racing, obs.FinalBid)
 }
 
 func c17Record(in c17Input, obs c17Obs) Record {
@@ -344,10 +399,20 @@ func c17Record(in c17Input, obs c17Obs) Record {
 	if races > 0 {
 		tags["has-racing-write"] = true
 	}
-	if len(in.Writes) == 0 {
-		tags["no-writes"] = true
+	ops := in.allOps()
+	nfail := 0
+	for _, op := range ops {
+		tags["op:"+op.Kind] = true
+		if op.Fail {
+			nfail++
+		}
 	}
-	if len(in.Fails) > 0 {
+	if len(ops) == 0 {
+		tags["no-writes"] = true
+	} else {
+		tags["last-op:"+ops[len(ops)-1].Kind] = true
+	}
+	if nfail > 0 {
 		tags["has-failed-write"] = true
 	}
 	if len(in.Reads) > 0 {
@@ -362,7 +427,7 @@ func c17Record(in c17Input, obs c17Obs) Record {
 	_ = inflight
 	kb, _ := json.Marshal(in)
 	rec := Record{Kind: "scenario", Input: in, Obs: obs, Key: string(kb), Tags: sortedKeys(tags),
-		Nontrivial: (len(obs.Uploads) >= 3 && len(in.Writes) >= 2) || (len(in.Fails) >= 2 && len(obs.Uploads) >= 1), Coq: coqC17(in, obs)}
+		Nontrivial: (len(obs.Uploads) >= 3 && len(ops) >= 2) || (nfail >= 2 && len(obs.Uploads) >= 1), Coq: coqC17(in, obs)}
 	for _, u := range obs.Uploads {
 		if u.Bucket != "backups" && !strings.Contains(u.Key, "backups") {
 			rec.Direct = &DirectVerdict{OK: false, What: fmt.Sprintf("upload went to %q %q, not to the configured bucket", u.Bucket, u.Key)}
@@ -386,6 +451,8 @@ func genC17(seed uint64, i int) c17Input {
 	case "cancel-early":
 		horizon = uint64(1 + r.IntN(200))
 	}
+	sh := newC17Shadow()
+	lastT := uint64(0)
 	t := uint64(0)
 	nw := r.IntN(12)
 	if in.Kind == "bursts" {
@@ -406,8 +473,8 @@ func genC17(seed uint64, i int) c17Input {
 		}
 		t += gap
 		w := t*1000 + 500 + uint64(k%7)
-		if len(in.Writes) > 0 && w <= in.Writes[len(in.Writes)-1] {
-			w = in.Writes[len(in.Writes)-1] + 1
+		if w <= lastT {
+			w = lastT + 1
 		}
 		if w/1000 >= horizon {
 			break
@@ -421,11 +488,27 @@ func genC17(seed uint64, i int) c17Input {
 		}
 		switch {
 		case p < failP:
-			in.Fails = append(in.Fails, t*1000+300+uint64(k%7))
+			op := sh.gen(r, false)
+			op.T, op.Fail = w, true
+			in.Ops = append(in.Ops, op)
+			lastT = w
 		case p < failP+readP:
 			in.Reads = append(in.Reads, t*1000+400+uint64(k%7))
 		default:
-			in.Writes = append(in.Writes, w)
+			op := sh.gen(r, false)
+			op.T = w
+			sh.apply(op)
+			in.Ops = append(in.Ops, op)
+			lastT = w
+		}
+	}
+	// often the LAST change is not a put: a delete-version, an activate or a delete, then quiet
+	if r.IntN(2) == 0 && t+400 < horizon {
+		op := sh.gen(r, true)
+		op.T = (t+1+uint64(r.IntN(100)))*1000 + 500
+		if op.T > lastT {
+			sh.apply(op)
+			in.Ops = append(in.Ops, op)
 		}
 	}
 	ns := r.IntN(6)
@@ -461,6 +544,106 @@ func genC17(seed uint64, i int) c17Input {
 		in.Cancel = uint64(1 + r.IntN(900))
 	}
 	return in
+}
+
+// c17Shadow: the generator's own rough idea of the store, only to aim the calls (mostly
+// effective ones, some that change nothing); the verdict "is it a write" is the model's.
+type c17Sec struct {
+	vers   map[uint32]int
+	active uint32
+	latest uint32
+}
+type c17Shadow struct{ secs map[string]*c17Sec }
+
+func newC17Shadow() *c17Shadow { return &c17Shadow{secs: map[string]*c17Sec{}} }
+
+func (sh *c17Shadow) apply(op c17Op) {
+	x := sh.secs[op.Name]
+	switch op.Kind {
+	case "put":
+		if x == nil {
+			sh.secs[op.Name] = &c17Sec{vers: map[uint32]int{1: op.Val}, active: 1, latest: 1}
+			return
+		}
+		if v, ok := x.vers[x.latest]; ok && v == op.Val {
+			return
+		}
+		x.latest++
+		x.vers[x.latest] = op.Val
+	case "activate":
+		if x != nil {
+			if _, ok := x.vers[op.Ver]; ok && op.Ver != 0 {
+				x.active = op.Ver
+			}
+		}
+	case "delver":
+		if x != nil && op.Ver != x.active {
+			delete(x.vers, op.Ver)
+		}
+	case "del":
+		delete(sh.secs, op.Name)
+	}
+}
+
+func (sh *c17Shadow) gen(r *randT, effectiveNonPut bool) c17Op {
+	name := "k"
+	if r.IntN(4) == 0 {
+		name = "j"
+	}
+	x := sh.secs[name]
+	if effectiveNonPut && x == nil {
+		name = "k"
+		x = sh.secs[name]
+	}
+	var others []uint32 // existing, not active
+	if x != nil {
+		for v := range x.vers {
+			if v != x.active {
+				others = append(others, v)
+			}
+		}
+		sort.Slice(others, func(i, j int) bool { return others[i] < others[j] })
+	}
+	if effectiveNonPut && x != nil {
+		switch k := r.IntN(5); {
+		case k < 2 && len(others) > 0:
+			return c17Op{Kind: "delver", Name: name, Ver: others[r.IntN(len(others))]}
+		case k < 4 && len(others) > 0:
+			return c17Op{Kind: "activate", Name: name, Ver: others[r.IntN(len(others))]}
+		default:
+			return c17Op{Kind: "del", Name: name}
+		}
+	}
+	switch k := r.IntN(100); {
+	case k < 42 || x == nil:
+		op := c17Op{Kind: "put", Name: name, Val: 1 + r.IntN(5)}
+		if x != nil && r.IntN(10) < 3 {
+			if v, ok := x.vers[x.latest]; ok {
+				op.Val = v // the bytes of the newest version: saves nothing
+			}
+		}
+		return op
+	case k < 64:
+		op := c17Op{Kind: "activate", Name: name, Ver: uint32(r.IntN(5))}
+		if len(others) > 0 && r.IntN(10) < 6 {
+			op.Ver = others[r.IntN(len(others))]
+		} else if r.IntN(3) == 0 {
+			op.Ver = x.active // already active: saves nothing
+		}
+		return op
+	case k < 84:
+		op := c17Op{Kind: "delver", Name: name, Ver: uint32(r.IntN(5))}
+		if len(others) > 0 && r.IntN(10) < 7 {
+			op.Ver = others[r.IntN(len(others))]
+		}
+		return op
+	default:
+		op := c17Op{Kind: "del", Name: name}
+		if r.IntN(4) == 0 {
+			op.Name = "absent" // nothing to delete: saves nothing
+		}
+		return op
+	}
 }
 
 // ---- child ----
